@@ -74,7 +74,7 @@ def main(claimed):
     'setup_cmd': '/venv/bin/python tools/doctor.py',
     'hooks': {
       'guard': 'MALT_VERIF_SIM',
-      'enable': 'no source hooks: every seam is a module attribute or the threading.Lock/RLock factories patched by the harness before malt is imported; MALT_VERIF_SIM=1 is set by the harness for its own lanes only and no file in /repo reads it',
+      'enable': 'no source hooks: every seam is a module attribute or the threading.Lock/RLock/Event factories patched by the harness before malt is imported; MALT_VERIF_SIM=1 is set by the harness for its own lanes only and no file in /repo reads it',
       'baseline_off_cmd': base_cmd,
       'source_commits': [],
       'add_only': True,
